@@ -33,6 +33,22 @@ CLAIMED = {
   text="Deductive proof that Add notifies exactly once when and only when it stores a header (ghost NOTIF count unchanged on duplicate, forbidden and failed-store paths), that the event payload equals the stored record's nine fields (HeaderAdded), that Notifier.Notify starts exactly one goroutine per registered channel with the event (ghost SPAWN log, loop invariant) and delivers nothing inline, and that the websocket channel publishes at most once per event on channel 'headers'.",
   note="Assumed: spawned goroutines eventually run and do not interfere (schedules are out of scope); encoding/json and centrifuge delivery; webhook channel see C12.",
   design="4 C11"),
+ "C07": dict(
+  text="Deductive proof of the containment logic reached so far: a hash is treated as forbidden iff it equals one of the network's HeadersToIgnore (ignoreBlockHash, loop invariant), a forbidden submission leaves the store and the notification count unchanged and is answered BlockRejected (Add, shared with C01), and the experimental engine's checkpoint search returns exactly the first checkpoint above the given height (findNextCheckpoint, pointers into the checkpoint slice modelled as element references).",
+  note="Not yet covered: the peer-side reactions (disconnect/ban in SyncManager.handleHeadersMsg and Peer.handleHeadersMsg, checkpoint mismatch handling, the getheaders request after a checkpoint) and the convergence clause (C06, not applicable). Checkpoints are assumed sorted ascending (a requires).",
+  design="4 C07"),
+ "C09": dict(
+  text="Deductive proof of the authentication middleware (parseAuthHeader: only 'Bearer <t>' without spaces passes; getToken: every token-service error becomes 401; ApplyToAPI: with auth enabled either one structured 401 + abort + nothing set, or the token is set and nothing is written; with auth disabled no effect) and of the admin wrapper (validateToken, RequireAdmin and its closure: the wrapped handler is invoked iff the context holds an admin *domains.Token, otherwise one structured error, aborted, stores untouched), plus structural SSA-provenance obligations (no solver): every RegisterAPIEndpoints implementation registers routes only on the group it is given, SetupRoutes passes engine.Group(\"/api/v1\", authentication middlewares...) to each of them, the mutating /access routes are wrapped by RequireAdmin(handler, cfg.UseAuth), and the unauthenticated registrations are exactly status, swagger, pprof, metrics and the websocket upgrade.",
+  note="Assumed: gin runs group middleware before handlers and AbortWithStatusJSON stops the chain; strings.Split contract; the route table as gin materialises it at run time is not observed. The structural obligations are syntactic facts about the SSA, enumerated from the code on every run.",
+  design="4 C09"),
+ "C10": dict(
+  text="Deductive proof over the ghost token set TK and the ghost constant ADMIN: TokenService.GetToken accepts the admin token independently of TK and any other token iff it is in TK (non-admin); GenerateToken adds exactly the returned value; DeleteToken removes exactly the given value (other tokens unaffected, admin cannot be disabled); the websocket connect handshake refuses exactly when authentication is required and the token is neither admin nor in TK.",
+  note="Assumed: repository.Tokens port contracts over TK (token SQL is a trusted L0; persistence across restarts rests on SQLite durability); pairwise distinctness of issued tokens rests on uniuri randomness (not covered); reads succeed (rok).",
+  design="4 C10"),
+ "C16": dict(
+  text="Deductive proof, per handler (headers 5, tips 2, merkleroots 2, webhook 3, access 3, network 2) and for ErrorResponse/AbortWithErrorResponse/mapAndLog, over the ghost effect log RESP of gin.Context: a fresh request is answered by exactly one JSON document whose status is 200, or 4xx with a ResponseError{code,message} body, or 5xx only when storage failed; no handler panics on any parameter, query or body value; the header store is not modified (HS outside every handler's frame). Error classes of the service methods are port contracts (okErr).",
+  note="Assumed: gin Context method semantics (read from gin v1.10.0: Bind* writes 400 and aborts on error, JSON writes status+body), strconv/json, the service ports' error classes (proved for the token service; header/merkleroot/webhook services' error classes are assumed here and partly proved under C04/C08/C12); the status endpoint (empty 200) is outside the claim; gin recovery middleware is not modelled.",
+  design="4 C16"),
 }
 
 NOT_APPLICABLE = {
